@@ -442,6 +442,7 @@ type Contract struct {
 	Assigns   []string // raw place strings; nil = unspecified
 	HasAssign bool
 	Pure      bool
+	PureReads []string // parameter names whose slice contents a pure function reads
 	Fresh     bool
 	MayPanic  bool
 	OnceGuarded bool // closure that only ever runs inside sync.Once.Do (inventory-checked)
@@ -449,6 +450,7 @@ type Contract struct {
 	Decreases *Clause
 	Loops     map[int]*LoopSpec
 	Calls     []*CallSiteSpec
+	ReturnAsserts []Clause // assertions over parameters, results and locals, checked at every return where they are in scope
 	Props     []string
 	Insts     map[string][]Clause // clause name -> instantiation hints ("var: term")
 	Params    []string // optional explicit parameter names (externs)
@@ -683,6 +685,14 @@ func (S *Specs) LoadFile(path string, extern bool) error {
 				al.Index, _ = strconv.Atoi(f[2])
 			}
 			S.Aliases[f[0]] = al
+		case "reads":
+			// reads mem(x): the result of a pure function also depends on the contents of slice x
+			for _, a := range splitTop(rest) {
+				a = strings.TrimSpace(a)
+				if strings.HasPrefix(a, "mem(") && strings.HasSuffix(a, ")") {
+					cur.PureReads = append(cur.PureReads, a[4:len(a)-1])
+				}
+			}
 		case "pure":
 			cur.Pure = true
 			cur.HasAssign = true
@@ -730,6 +740,14 @@ func (S *Specs) LoadFile(path string, extern bool) error {
 				return fail(fmt.Errorf("bad loop clause kind %q", f[1]))
 			}
 		case "at":
+			if strings.HasPrefix(rest, "return assert ") {
+				c, err := parseClause(strings.TrimSpace(strings.TrimPrefix(rest, "return assert ")))
+				if err != nil {
+					return fail(err)
+				}
+				cur.ReturnAsserts = append(cur.ReturnAsserts, c)
+				continue
+			}
 			// at call <callee>#k assert E
 			f := strings.SplitN(rest, " ", 4)
 			if len(f) < 4 || f[0] != "call" {
